@@ -200,6 +200,8 @@ func sizeAndMarshalToAgree(m any) (ok bool) {
 	return true
 }
 
+var errOwnMarshalTo = errors.New("the message's own MarshalTo fails")
+
 // safeSize is csproto.Size of m, 0 if that panics.
 func safeSize(m any) (n int) {
 	defer func() {
@@ -325,6 +327,14 @@ func runC19(t *rapid.T, w *rep.Worker) {
 					// "an error from the nested message propagates to the caller". The field is encoded into spare room
 					// after the judged fields and must fail; nothing after it is judged.
 					f.expectErr = err
+					spare = 64 + safeSize(f.msg)
+					usable = i + 1
+				}
+				if f.expectErr == nil && usable == len(fields) && ownMarshalToFails(f.msg) {
+					// the message marshals itself into a supplied buffer and that fails (a generated proto2 message with
+					// an unset required field whose Size() is 0, for which csproto.Marshal wrongly succeeds): EncodeNested
+					// takes the MarshalTo path, so this error is the one that must reach the caller
+					f.expectErr = errOwnMarshalTo
 					spare = 64 + safeSize(f.msg)
 					usable = i + 1
 				}
